@@ -522,7 +522,21 @@ inline void eval(uint64_t n = 1) {
   st.evaluations = st.evaluations + n;
 }
 
+#ifdef VF_FUZZ_TARGET
+// a libFuzzer target that compiles a harness's main() under another name receives the harness's streams here
+inline std::vector<Stream>& fuzz_streams() {
+  static std::vector<Stream> s;
+  return s;
+}
+#endif
+
 inline int run(int argc, char** argv, const std::vector<Stream>& streams) {
+#ifdef VF_FUZZ_TARGET
+  (void)argc;
+  (void)argv;
+  fuzz_streams() = streams;
+  return 0;
+#endif
   if (argc >= 2 && std::string(argv[1]) == "--merge-hashes") {
     std::vector<std::string> files(argv + 2, argv + argc);
     return merge_hashes(files);
